@@ -217,3 +217,27 @@ def check_safety(prop, tier, replay):
 
 for _p in ("C01", "C09", "C12", "C16"):
     REGISTRY[_p] = check_safety
+
+
+# ---------------------------------------------------------------- C02 -------
+VERIFY_STAGES = {
+    "quick":    [("tokens-k2-full", dict(K=2, MaxDs="MaxDs123", Sigma="SigmaFull", Deep="FALSE")),
+                 ("tokens-k3-full", dict(K=3, MaxDs="MaxDs2", Sigma="SigmaFull", Deep="FALSE")),
+                 ("nesting-limits", dict(K=0, MaxDs="MaxDsDeep", Sigma="SigmaMid", Deep="TRUE"))],
+    "thorough": [("tokens-k3-full", dict(K=3, MaxDs="MaxDs123", Sigma="SigmaFull", Deep="FALSE")),
+                 ("tokens-k4-full", dict(K=4, MaxDs="MaxDs2", Sigma="SigmaFull", Deep="FALSE")),
+                 ("tokens-k2-wide", dict(K=2, MaxDs="MaxDs123", Sigma="SigmaWide", Deep="FALSE")),
+                 ("tokens-k4-mid", dict(K=4, MaxDs="MaxDs2", Sigma="SigmaMid", Deep="FALSE")),
+                 ("nesting-limits", dict(K=0, MaxDs="MaxDsDeep", Sigma="SigmaMid", Deep="TRUE"))],
+}
+
+
+def check_verify(prop, tier, replay):
+    if replay:
+        return replay_file(prop, replay)
+    t0 = time.time()
+    stages = [product_stage(prop, name, "MC_Verify.tla", "MC_Verify.cfg", c) for name, c in VERIFY_STAGES[tier]]
+    return finish(prop, tier, stages, t0, ASSUME_COMMON)
+
+
+REGISTRY["C02"] = check_verify
